@@ -62,7 +62,7 @@ def prefixSteps (i pt : Nat) : List (Step QD) :=
 def restSteps (i : Nat) : List (Step QD) := [.acquire i, .lookup i, .compute i, .insert i, .send i]
 
 structure Sim where
-  st : St QD Rsp := {}
+  st : Cache.St QD Rsp := {}
   parked : List (String × Nat) := []      -- label ↦ flight index, every label that ever parked
   live : List String := []                -- labels still parked
   out : List String := []
